@@ -15,6 +15,12 @@ terminating NUL).
 -/
 namespace SSVerif.TextIn
 
+/-- the build mode of `jsmn.h` inside `config.c` and the `ARG_*` type codes this model is written
+for, checked against the constants regenerated from the current sources -/
+example : Generated.TextIn.jsmnStrict = false ∧ Generated.TextIn.jsmnParentLinks = false := ⟨rfl, rfl⟩
+example : (Generated.TextIn.argRequired, Generated.TextIn.argInteger, Generated.TextIn.argFloating,
+    Generated.TextIn.argString, Generated.TextIn.argBoolean) = (1, 2, 4, 8, 16) := rfl
+
 inductive TokType where
   | object | array | string | primitive
 deriving Repr, DecidableEq, Inhabited
